@@ -115,7 +115,9 @@ theorem matchFwd_enum (ign : Glyph → Bool) :
     cases ts with
     | nil => simp [matchFwd, enumerate, eqPreds]
     | cons t ts =>
-      simp only [List.map_cons, matchFwd, false_iff]
+      simp only [List.map_cons, matchFwd]
+      constructor
+      · intro h; simp at h
       rintro ⟨rest, hr, hm⟩
       obtain ⟨a, rest', rfl, _, _⟩ := (mem_enumerate_cons t ts rest).mp hr
       simp [eqPreds, matchFwd] at hm
